@@ -240,7 +240,8 @@ def eval_family(case):
                     failing[n] = rq_[2]
                 c = conns[ci % len(conns)]
                 if own is not None:
-                    hdrs = {"X-Request-ID": own}
+                    # (header names are case-insensitive: the caller may spell the name its own way)
+                    hdrs = {case.get("id_header") or "X-Request-ID": own}
                 elif case.get("shared_headers"):
                     hdrs = shared_hdrs          # the caller keeps one headers dict and passes it to every request
                 else:
@@ -315,6 +316,7 @@ def st_family():
                          min_size=3, max_size=14),
         "methods": st.booleans(),
         "shared_headers": st.booleans(),
+        "id_header": st.sampled_from(["X-Request-ID", "X-Request-ID", "X-Request-ID", "x-request-id", "X-Request-Id", "X-REQUEST-ID"]),
     })
 
 
